@@ -81,6 +81,12 @@ func (g *gzipResponseWriter) Write(b []byte) (int, error) {
 		// Stream directly without compression
 		return g.ResponseWriter.Write(b)
 	}
+	// A Write without a WriteHeader before it means 200, as in net/http: a WriteHeader that
+	// comes after body bytes is superfluous and must not replace the status.
+	if !g.wroteHeader {
+		g.statusCode = http.StatusOK
+		g.wroteHeader = true
+	}
 	// Check if adding this data would exceed max buffer size
 	if g.buf.Len()+len(b) > MaxCompressionBufferSize {
 		// Fall back to streaming uncompressed
